@@ -9,6 +9,7 @@ import re
 from .common import *
 
 EXPLANATION = __doc__
+TECHNIQUE = "static analysis of rustc MIR facts: dominance/guard and value-provenance rules plus exact symbolic decision tables of loop-free guard functions (exhaustive over weak orderings)"
 
 
 def run(ctx):
